@@ -45,6 +45,18 @@ BUILT["C17"] = ("E1", "fault_enumeration", "deterministic simulation: honest ses
 BUILT["C19"] = ("E1", "exploration", "deterministic simulation: real plaintext / pnet upgrades over fault-injecting pipes (chunking, Pending, EINTR), scripted raw peer coalescing handshake and application bytes; plus a plain seeded-input rider for the key-file text format",
   "Seeded search over identities x payloads x chunkings x schedules: stream equality both ways, PeerIdMismatch for every id/key mismatch, follow-up bytes sent in the same write as the Exchange message are read first and completely; pnet with equal keys is transparent under partial writes and Interrupted errors; key-file rider: round-trip and no panic on arbitrary (incl. 64-byte non-ASCII) text",
   "plaintext Exchange is capped at 100 bytes by the code, so only ed25519/secp256k1 identities are used there; the key-file rider is input generation, not simulation, and is labelled so in evidence", "5/C19")
+BUILT["C23"] = ("E1", "fault_enumeration", "deterministic simulation: real dns::Transport over a simulated resolver (record graphs with cycles/fan-out, injected resolver errors, empty and wrong-type answers, slow answers) and a recording inner transport with planned dial outcomes",
+  "Seeded search over record graphs x dialled address shapes x resolver faults x dial outcome plans; oracle per dial: <=32 lookups, <=16 accepted inner dials, no DNS component reaches the inner transport, /dnsaddr results keep the original suffix, the future resolves and never panics",
+  "resolver seam = the crate's own Resolver trait via the cfg(libp2p_verif) constructor; hickory Lookup values built by hand", "5/C23")
+BUILT["C31"] = ("E1", "exploration", "deterministic simulation: real GossipsubCodec behind FramedRead over a chunking/coalescing pipe, RPC streams generated at limit-1/limit/limit+1 by a hand-written protobuf encoder",
+  "Seeded search over limits x RPC streams x chunkings (everything-in-one-read, byte-by-byte, random): decoded sequence must equal the RPCs up to the first over-limit one (error there); an RPC within all limits is never rejected",
+  "codec obtained through the cfg(libp2p_verif) facade constructor; ValidationMode::None so that only size limits decide", "5/C31")
+BUILT["C49"] = ("E1", "exploration", "deterministic simulation with virtual clock: real relay CopyFuture between two fault-injecting duplexes, endpoints with drawn volumes and stalls; byte and time limits",
+  "Seeded search over limits x volumes x stalls x chunkings x schedules with the virtual clock advanced past the deadline: prefix/equality of forwarded bytes, overshoot <= one 8 KiB buffer per direction, error after exceeding max_circuit_bytes, TimedOut when the deadline passes with nothing to forward, Ok and complete delivery within limits",
+  "CopyFuture reached through the cfg(libp2p_verif) facade; time = patched futures-timer", "5/C49")
+BUILT["C56"] = ("E1", "exploration", "deterministic simulation: pair of real webrtc-utils Streams over a clonable simulated data channel with a raw flag injector; operation histories checked against a reference half-close state machine",
+  "exact scenario: every result of 10..60 drawn operations (read/write/flush/close/close_read/inject FIN|STOP_SENDING|RESET) equals the reference state machine fed with the same message sequence; interleaved scenario: half-done operations, dropped streams (DropListener), spurious Pending: no panic, ConnectionReset is sticky, data read is a prefix of data written",
+  "flag messages carry no data; frames written atomically into the simulated channel", "5/C56")
 NOT_YET = {}
 
 def main():
